@@ -186,6 +186,11 @@ def _view(stmt):
             return {'v': sid}
         if ret == 'raise':
             raise MyExc('boom')
+        if ret == 'mv':
+            # written for the custom mapper: called as view(request, tag); DefaultViewMapper calls view(context, request)
+            r = Response('mv%d:%s' % (sid, request if isinstance(request, str) else 'unmapped'))
+            r.headers['X-View'] = 'v%d' % sid
+            return r
         r = Response('v%d' % sid)
         r.headers['X-View'] = 'v%d' % sid
         if kind in ('notfound',):
@@ -197,7 +202,25 @@ def _view(stmt):
         return r
     view.__name__ = 'view_%d' % sid
     view.c08_sid = sid
+    view.c08_mv = (ret == 'mv')
     return view
+
+
+def _mapper(sid):
+    from pyramid.config.views import DefaultViewMapper
+
+    class Mapper:
+        """default view mapper of the program: views written for it are called as view(request, 'M<sid>')"""
+        c08_sid = sid
+
+        def __init__(self, **kw):
+            self.kw = kw
+
+        def __call__(self, view):
+            if getattr(view, 'c08_mv', False):
+                return lambda context, request: view(request, 'M%d' % sid)
+            return DefaultViewMapper(**self.kw)(view)
+    return Mapper
 
 
 class Policy:
@@ -392,6 +415,8 @@ def declare(config, st, in_prefix=False):
             config.add_exception_view(v, context=MyExc, **kw)
     elif k == 'renderer':
         config.add_renderer(st['name'], _renderer_factory(sid))
+    elif k == 'mapper':
+        config.set_view_mapper(_mapper(sid))
     elif k == 'policy':
         config.set_security_policy(Policy(sid))
     elif k == 'defperm':
@@ -703,7 +728,7 @@ def registrations(b, stmts):
         if rs:
             out['routes'] = rs
     for iface, key in ((I.ISecurityPolicy, 'policy'), (I.IRootFactory, 'rootf'), (I.ISessionFactory, 'sessf'),
-                       (I.IRequestFactory, 'reqf')):
+                       (I.IRequestFactory, 'reqf'), (I.IViewMapperFactory, 'mapper')):
         u = q(iface)
         if u is not None and hasattr(u, 'c08_sid'):
             out[key] = [u.c08_sid]
